@@ -47,6 +47,8 @@ def generate(seed, tier, index):
         extra = r.choice([['LogEmbeddedErrorEstimatePostIter'], ['LogEmbeddedErrorEstimatePostIter', 'LogEmbeddedErrorEstimate'], ['LogEmbeddedErrorEstimate']])
         for h in extra:
             sc['config']['hooks'].insert(r.randint(0, len(sc['config']['hooks'])), h)
+    if r.random() < 0.3:
+        sc['between_steps_work'] = r.randint(1, 3)  # a trailing user hook evaluates the right-hand side after every step
     sc['spy_stats'] = True
     sc['oracle_seed'] = r.randrange(1 << 30)
     return sc
